@@ -191,12 +191,12 @@ static void field(HttpHeader &h, const Http::HdrType id, const char *value) { h.
 
 // Reply with Date / Expires present (any time), absent, or (Expires) unparsable, and a symbolic Cache-Control object;
 // t0 = time of receipt (squid_curtime). Runs the real HttpReply::hdrCacheInit()/hdrExpirationTime().
-static Hdr symbolicReply(World &w, const int64_t t0)
+static Hdr symbolicReply(World &w, const int64_t t0, const bool dateAndExpiresOnly = false)
 {
     Hdr h;
-    h.hasDate = vf_concretize(vf_bool("has_date"));          // an unparsable Date is the same as none (getTime() = -1)
+    h.hasDate = dateAndExpiresOnly || vf_concretize(vf_bool("has_date")); // an unparsable Date is the same as none (getTime() = -1)
     h.D = h.hasDate ? (int64_t)vf_range(0, T31, "date") : -1;
-    const unsigned ex = (unsigned)vf_concretize(vf_range(0, 2, "expires_field")); // 0 absent, 1 valid, 2 unparsable ("0", "-1", "now" ...)
+    const unsigned ex = (unsigned)vf_concretize(vf_range(dateAndExpiresOnly ? 1 : 0, 2, "expires_field")); // 0 absent, 1 valid, 2 unparsable ("0", "-1", "now" ...)
     h.hasExpires = ex != 0; h.expiresValid = ex == 1;
     h.X = h.expiresValid ? (int64_t)vf_range(0, T31, "expires") : -1;
     markD = (time_t)h.D; markE = (time_t)h.X;
@@ -205,7 +205,7 @@ static Hdr symbolicReply(World &w, const int64_t t0)
     w.rep->sline.set(Http::ProtocolVersion(1, 1), Http::scOkay);
     w.rep->hdrCacheInit();                                  // date, last_modified, expires (no Cache-Control field yet) ...
     vf_assert(w.rep->date == h.D, "reply date is the Date field's value (or -1)");
-    h.cc = vf_concretize(vf_bool("rep_has_cc")) ? symbolicCc("rep_cc", false) : nullptr;
+    h.cc = (!dateAndExpiresOnly && vf_concretize(vf_bool("rep_has_cc"))) ? symbolicCc("rep_cc", false) : nullptr;
     w.rep->cache_control = h.cc;                            // what header.getCc() yields for the corresponding field text (C29)
     w.rep->expires = w.rep->hdrExpirationTime();           // last step of hdrCacheInit(), now with the Cache-Control object
     // reference (RFC 9111 4.2.1 precedence: s-maxage, max-age, Expires)
@@ -229,7 +229,13 @@ extern "C" void c12_expiry(void)
     WITNESS_POINT();
 }
 
-// plain later request (no Cache-Control, no reload): K1 covers what requests can change
+#ifndef C12_SHOW
+#define C12_SHOW 0   // bit 0 / bit 1 re-admit KNOWN-FINDING candidate class F1 / F2 below (to show the counterexamples again)
+#endif
+
+// plain later request (no Cache-Control, no reload): K1 covers what requests can change.
+// withLastModified: the reply also carries Last-Modified (any time) and no Cache-Control, Date present, Expires present --
+// the cases in which a lost explicit expiry would silently turn into LM-factor heuristic freshness.
 static void chain(const bool withLastModified)
 {
     defaults();
@@ -242,7 +248,26 @@ static void chain(const bool withLastModified)
         markL = (time_t)vf_range(0, T31, "last_modified");
         field(w.rep->header, Http::HdrType::LAST_MODIFIED, "@L");
     }
-    const Hdr h = symbolicReply(w, t0);
+    const Hdr h = symbolicReply(w, t0, withLastModified);
+    // reference freshness lifetime (RFC 9111 4.2.1), Date = receipt time when there is no valid Date (RFC 9110 6.6.1)
+    const int64_t dateRef = h.hasDate ? h.D : t0;
+    bool explicitL = true, byExpires = false; int64_t L = 0;
+    if (ccHas(h.cc, CC_S_MAXAGE)) L = h.cc->s_maxage;
+    else if (ccHas(h.cc, CC_MAX_AGE)) L = h.cc->max_age;
+    else if (h.hasExpires) { L = h.expiresValid ? h.X - dateRef : 0; byExpires = true; } // unparsable Expires = already expired (RFC 9111 5.3)
+    else explicitL = false;
+    // KNOWN-FINDING candidate F1: the lifetime comes from an unparsable Expires ("0", "-1", ...) and the Date field is more than 24 h
+    // older than Squid's clock. hdrExpirationTime() turns the bad Expires into the receipt time t0, StoreEntry::timestampsSet()
+    // replaces the old Date by t0 (served_date) but still adds (expires - Date): entry->expires = t0 + (t0 - Date), so the
+    // already-expired reply is FRESH_EXPIRES for as long as the Date was old (replay: received=524288 date=1024 expires_field=2 now=852334).
+    if (!(C12_SHOW & 1) && byExpires && !h.expiresValid && h.hasDate) vf_assume(!(h.D < t0 - 86400));
+    // KNOWN-FINDING candidate F2: the lifetime comes from a valid Expires, the Date field is ahead of Squid's clock (served_date = t0) and
+    // Expires <= Date - t0 - 1 (e.g. "Expires: Thu, 01 Jan 1970 00:00:01 GMT" from an origin whose clock is 2 s ahead): the rebased
+    // entry->expires = t0 + Expires - Date is <= -1, which refreshStaleness() reads as "no explicit expiry", and with a Last-Modified
+    // field the reply is FRESH_LMFACTOR_RULE although it had expired before it was sent (replay: received=1073741824
+    // last_modified=1006632960 date=1879048192 expires=805273600 now=1073741824). Without Last-Modified the verdict is STALE_DEFAULT.
+    if (!(C12_SHOW & 2) && withLastModified && byExpires && h.expiresValid && h.hasDate) vf_assume(!(h.D > t0 && h.X <= h.D - t0 - 1));
+
     w.entry->timestamp = -1; w.entry->expires = -1; w.entry->lastModified_ = -1; // as new StoreEntry
     w.entry->timestampsSet();
     vf_observe("timestamp", (uint64_t)w.entry->timestamp); vf_observe("entry_expires", (uint64_t)w.entry->expires);
@@ -255,13 +280,6 @@ static void chain(const bool withLastModified)
 
     const int reason = verdictOf(w);
 
-    // reference freshness lifetime (RFC 9111 4.2.1), Date = receipt time when there is no valid Date (RFC 9110 6.6.1)
-    const int64_t dateRef = h.hasDate ? h.D : t0;
-    bool explicitL = true; int64_t L = 0;
-    if (ccHas(h.cc, CC_S_MAXAGE)) L = h.cc->s_maxage;
-    else if (ccHas(h.cc, CC_MAX_AGE)) L = h.cc->max_age;
-    else if (h.hasExpires) L = h.expiresValid ? h.X - dateRef : 0;
-    else explicitL = false;
     const int64_t resident = now - t0;
     if (explicitL && resident >= L) {
         vf_assert(reason >= 200, "explicit freshness lifetime (s-maxage | max-age | Expires - Date) passed: the verdict is STALE");
